@@ -18,6 +18,8 @@ CONSTANTS
   TxnBeforeGate = FALSE
   NestedCloseClearsMark = FALSE
   ReadNotCounted = TRUE
+  SqueezedFits = TRUE
+  ReopenClampsMap = FALSE
   BatchMax = 1
   MaxOps = 14
   WithReads = FALSE
